@@ -6,6 +6,7 @@ import (
 	"os"
 	"os/exec"
 	"path/filepath"
+	"sync"
 
 	"verif/internal/ev"
 	"verif/internal/lzc"
@@ -28,6 +29,9 @@ func checkC02(c *ev.Ctx) {
 		}
 	}
 	c.Set("liblzma_linked", lzc.Available())
+	var maxMu sync.Mutex
+	var maxDist int64
+	defer func() { c.Set("largest_match_distance_seen", maxDist) }()
 	par(len(cases), func(i int) {
 		k := cases[i]
 		if !want(c, k.ID) {
@@ -144,6 +148,11 @@ func checkC02(c *ev.Ctx) {
 		c.Count("ops_rep1to3", int64(st.Reps[1]+st.Reps[2]+st.Reps[3]))
 		c.Count("blocks", int64(len(s.Blocks)))
 		c.Count("streams_judged", 1)
+		maxMu.Lock()
+		if st.MaxDist > maxDist {
+			maxDist = st.MaxDist
+		}
+		maxMu.Unlock()
 		if i%97 == 0 {
 			c.Sample(map[string]any{"case": k.desc(), "stream_bytes": len(stream), "blocks": len(s.Blocks), "chunk_kinds": ks, "max_distance": st.MaxDist, "dict_code": s.Blocks[0].DictCode})
 		}
